@@ -3,6 +3,7 @@ mod codec;
 mod effects;
 mod expr;
 mod kem;
+mod keysched;
 mod latesender;
 mod nodevec;
 mod pathreq;
@@ -11,6 +12,7 @@ mod ratchet;
 mod resume;
 mod transcript;
 mod treemath;
+mod welcome;
 mod window;
 
 fn main() {
@@ -33,6 +35,8 @@ fn main() {
         "nodevec" => nodevec::run(&a[2], &a[3]),
         "transcript" => transcript::run(&a[2], &a[3]),
         "latesender" => latesender::run(&a[2], &a[3]),
+        "welcome" => welcome::run(&a[2], &a[3]),
+        "keysched" => keysched::run(&a[2], &a[3]),
         _ => std::process::exit(2),
     }
 }
